@@ -99,6 +99,8 @@ EvSelect ==
         /\ conf' = (conf /\ ok) /\ div' = Note(ok, <<"Select", t, "got", E.sel, "expected", ExpSel(t, E.cursor)>>)
         \* C03: exactly one of the candidate sets is used
         /\ bad' = bad \cup Flag(OneCandidate(t, S), <<"C03", l, "an allocation with alternatives books more than one of its candidates", <<t, E.sel>>>>)
+                      \* ... and the choice is made once: a task that has booked work does not move on to another candidate
+                      \cup Flag(ts[t].lo < 0 \/ E.sel = ts[t].sel, <<"C03", l, "an allocation with alternatives changes its candidate after work was booked", <<t, ts[t].sel, E.sel>>>>)
   /\ UNCHANGED <<used, usage, lim, lsec, cur>>
 
 EvBook ==
@@ -272,6 +274,8 @@ LayoutOk(F, e) ==
       hi(i) == WinHi(F, q[i][1], r, s)
   IN  r = 0 \/ \A i \in 1..n : \A j \in 1..n :
         lo(i) <= hi(j) => SumU([k \in 1..n |-> <<0, IF lo(k) >= lo(i) /\ hi(k) <= hi(j) THEN q[k][2] ELSE 0>>]) <= hi(j) - lo(i)
+\* the class of known finding KF-C01-mixed-direction: a slot that holds a portion of a forward-mode and of a backward-mode task
+MixedDir(e) == \E i, j \in 1..Len(e.parts) : e.parts[i][1] # 0 /\ e.parts[j][1] # 0 /\ ts[e.parts[i][1]].fwd /\ ~ts[e.parts[j][1]].fwd
 FinalBad(F) ==
      \* C10 on the state read through the API
      UNION {Flag((F[c].sched <=> \A k \in Kids(c) : F[k].sched)
@@ -285,7 +289,8 @@ FinalBad(F) ==
      \* C01: the portions booked in one slot can be laid out side by side INSIDE the reported intervals of their tasks
      \* (Hall's condition over the window end points; reported dates may be off by one second, D12)
      \cup (IF "ledger" \notin DOMAIN TR THEN {} ELSE
-           UNION {Flag(LayoutOk(F, TR.ledger[i]), <<"C01", l, "final: portions do not fit side by side inside the reported intervals", <<TR.ledger[i].r, TR.ledger[i].s>>>>) :
+           UNION {Flag(LayoutOk(F, TR.ledger[i]), <<"C01", l, IF MixedDir(TR.ledger[i]) THEN "final [KF-C01-mixed-direction]: portions of a forward and a backward task do not fit side by side inside the reported intervals"
+                                                                 ELSE "final: portions do not fit side by side inside the reported intervals", <<TR.ledger[i].r, TR.ledger[i].s>>>>) :
                    i \in {j \in 1..Len(TR.ledger) : Len(TR.ledger[j].parts) >= 2}})
      \* C06 / C18 precondition: an unscheduled task reports no dates
 \* which quantifier domains the project of this trace belongs to (decided here, not in the harness)
